@@ -296,4 +296,38 @@ theorem runT_eq (v : Variant) : ∀ (ops : List TOp) (ts : TState), TOK ts →
       rw [this]
       simp
 
+/-! ### configured link timeout (`stepOfC`, Model/Discovery.lean Part 5) -/
+
+/-- WHATEVER THE CONFIGURED TIMEOUT: right after an expiry sweep every link left was in the adjacency before and was last probed at
+    most the configured link timeout ago (the links of a silent switch are withdrawn) -/
+theorem sweepC_young (c : Cfg) (v : Variant) (s : DState) (choose : Choose) (o : List Nat) (l : Link) (t : Nat)
+    (hm : (l, t) ∈ (stepOfC c v s choose (.sweep o)).1.adj) : (l, t) ∈ s.adj ∧ s.now ≤ t + c.linkTimeout := by
+  simp only [stepOfC] at hm
+  split at hm
+  · rename_i he
+    refine ⟨hm, Nat.le_of_not_lt fun hlt => ?_⟩
+    have hk : l ∈ keys (s.adj.filter fun e => decide (e.2 + c.linkTimeout < s.now)) :=
+      List.mem_map.mpr ⟨(l, t), List.mem_filter.mpr ⟨hm, by simpa using hlt⟩, rfl⟩
+    rw [List.isEmpty_iff.mp he] at hk
+    cases hk
+  · have hm' : (l, t) ∈ without s.adj (keys (s.adj.filter fun e => decide (e.2 + c.linkTimeout < s.now))) := hm
+    obtain ⟨hin, hnot⟩ := (mem_without _ _ l t).mp hm'
+    refine ⟨hin, Nat.le_of_not_lt fun hlt => hnot ?_⟩
+    exact List.mem_map.mpr ⟨(l, t), List.mem_filter.mpr ⟨hin, by simpa using hlt⟩, rfl⟩
+
+/-- ... and a sweep withdraws only links that were last probed longer ago than the configured timeout: every LinkEvent it raises is a
+    removal of such a link -/
+theorem sweepC_events (c : Cfg) (v : Variant) (s : DState) (choose : Choose) (o : List Nat) (a : Bool) (l : Link)
+    (hm : (a, l) ∈ (stepOfC c v s choose (.sweep o)).2.events) : a = false ∧ ∃ t, (l, t) ∈ s.adj ∧ t + c.linkTimeout < s.now := by
+  simp only [stepOfC] at hm
+  split at hm
+  · cases hm
+  · have hm' : (a, l) ∈ (keys (s.adj.filter fun e => decide (e.2 + c.linkTimeout < s.now))).map fun l => (false, l) := hm
+    obtain ⟨l', hl', he⟩ := List.mem_map.mp hm'
+    cases he
+    obtain ⟨e, hef, hel⟩ := List.mem_map.mp hl'
+    obtain ⟨hin, hp⟩ := List.mem_filter.mp hef
+    refine ⟨rfl, e.2, ?_, by simpa using hp⟩
+    rw [← hel]; exact hin
+
 end Pox.Discovery
